@@ -1,8 +1,8 @@
 /-
   QKV.Model.OpCount — qtools / estimate operation counts and the loop-nest specification.
 
-  Mirrors (as written, defects included; after the fix: commits 86c5631, 90baf03, 0e51e85, a151cef,
-  fff3a88 the defects left are the separable layers: no branch in `get_operation_count`, 1×1 stage
+  Mirrors (as written, defects included; after the fix: commits 86c5631, 89f0481, e54ac88, 2d53185,
+  174b8b4 the defects left are the separable layers: no branch in `get_operation_count`, 1×1 stage
   without its input channels in estimate.py)
     qkeras/qtools/qtools_util.py   : is_shape_alternation_layers, is_merge_layers, get_operation_count
     qkeras/estimate.py             : extract_model_operations  (`number_of_operations`)
@@ -50,7 +50,7 @@ def isShapeAlterationName (n : String) : Bool :=
 /-- the `if / elif` chain, in the order of the source -/
 def classify (n : String) : Branch :=
   if isMergeName n || isShapeAlterationName n then .elemwise
-  -- "QAveragePooling2D" joined the list with fix a151cef
+  -- "QAveragePooling2D" joined the list with fix 2d53185
   else if ["AveragePooling2D", "AvgPool2D", "GlobalAvgPool2D", "GlobalAveragePooling2D",
            "QAveragePooling2D", "QGlobalAveragePooling2D"].contains n then .avgPool
   else if strIn "UpSampling" n then .upSampling
@@ -79,11 +79,11 @@ structure LayerInfo where
 def atMostOneBig (l : List Nat) : Bool := (l.filter (fun d => decide (1 < d))).length ≤ 1
 /-- `sum(shape > 1) == 1`: the assertion of estimate.py -/
 def exactlyOneBig (l : List Nat) : Bool := (l.filter (fun d => decide (1 < d))).length = 1
-/-- `np.max(shape)` (what the dense branches read before fix fff3a88; kept for the regression
+/-- `np.max(shape)` (what the dense branches read before fix 174b8b4; kept for the regression
     witness) -/
 def maxL (l : List Nat) : Nat := l.foldr max 0
 
-/-- the dense formula shared by `get_operation_count` and estimate.py (fix fff3a88):
+/-- the dense formula shared by `get_operation_count` and estimate.py (fix 174b8b4):
     `np.prod(oshape[:-1]) * ishape[-1] * oshape[-1]` — the kernel contracts the LAST axis and is
     applied once per position of the remaining output axes; `none` = indexing an empty shape -/
 def denseCount (inShape outShape : List Nat) : Option Nat :=
@@ -125,7 +125,7 @@ def opCountB (b : Branch) (L : LayerInfo) : Option Nat :=
     | [_, _, _], [ho, wo, co], [kh, kw, _, _] => some (kh * kw * ho * wo * co)
     | _, _, _ => none
   | .dense =>
-    -- both assertions, then last axis × last axis × remaining positions     [fix fff3a88]
+    -- both assertions, then last axis × last axis × remaining positions     [fix 174b8b4]
     if atMostOneBig L.inShape && atMostOneBig L.outShape then denseCount L.inShape L.outShape
     else none
   | .other => some 0
@@ -150,7 +150,7 @@ def estOps (c : EstClass) (L : LayerInfo) : Option Nat :=
   match c with
   | .qconv2d =>
     match L.inShape, L.outShape, L.wShape with
-    -- each output channel only sees the input channels of its group      [fix 90baf03]
+    -- each output channel only sees the input channels of its group      [fix 89f0481]
     | [_, _, ci], [ho, wo, co], [kh, kw, _, _] => some (ho * wo * co * kh * kw * (ci / L.groups))
     | _, _, _ => none
   | .qconv1d =>
@@ -159,7 +159,7 @@ def estOps (c : EstClass) (L : LayerInfo) : Option Nat :=
     | _, _, _ => none
   | .qdepthwise =>
     match L.inShape, L.outShape, L.wShape with
-    -- channels_o = channels_i * depth_multiplier                          [fix 0e51e85]
+    -- channels_o = channels_i * depth_multiplier                          [fix e54ac88]
     | [_, _, _], [ho, wo, co], [kh, kw, _, _] => some (kh * kw * ho * wo * co)
     | _, _, _ => none
   | .qsepconv1d =>
